@@ -38,6 +38,17 @@ CHECKS = {
         "DESIGN.md section 4 (C11)",
         "Route (c) evidence for Dy != Dw is an open known finding (K01) with an exact predictor; any other discrepancy still fires.",
     ),
+    "C12": (
+        "deterministic simulation: lock-step twin execution of one seeded history on the batched roots and on root.slice(idx) (membership perturbation: seeded index arrays with repeats / negatives / permutations), component maps carried through every operation",
+        "Seeded search over histories and over membership perturbations. After every step each twin observation equals the primary observation indexed through the component map, each twin object equals primary_result.slice(map) attribute-wise (slicing commutes with the operation), and update(idx,d) changed exactly the addressed components bit-exactly. Needs no mathematical reference. Exploration level.",
+        "DESIGN.md section 4 (C12)",
+    ),
+    "C18": (
+        "deterministic simulation: an eager baseline history re-executed under boundary faults - jit whole program, two jitted stages with objects as results/arguments, jit closure over eager objects followed by eager reuse (tracer-leak detection), flatten/unflatten and to_dict/from_dict restarts at seeded points with cold or warmed caches, vmap over a data axis, lax.scan with the density as carry",
+        "Seeded search over programs (generated pipelines) x boundary perturbations x cut points x cache states of the crossing objects. Every observation of the perturbed execution equals the eager baseline; objects that crossed a boundary are coherent and evaluate to the same function; a boundary that raises or leaks a tracer into an eager object is a violation. The reverse-mode-gradient clause of C18 is NOT decided by this family (no schedule or fault in it) and is excluded. Exploration level.",
+        "DESIGN.md section 4 (C18)",
+        "Gradient clause (grad vs finite differences) excluded: it is a numerical differentiation check, not a simulation target.",
+    ),
     "C15": (
         "deterministic simulation: twin runs of one seeded history under the 'skip the fast path' perturbation - a specialised object (diagonal / identity-mean / rank-one / linear / constant / NN-controlled) is swapped for the general full-matrix object with the same parameters at a seeded step",
         "Seeded search over histories on specialised roots and over swap schedules (root only / mid-history / all). Every observation and every exposed attribute of the perturbed execution must equal the unperturbed one; I_coh on every object. Because both twins may share a defect, the numpy step invariant runs alongside. Exploration level.",
